@@ -12,6 +12,9 @@ PID = 'C15'
 NONEZ = -99999
 
 
+BAD_VALUE = frozenset({1})
+
+
 def type_table(E):
     """name -> (factory for the EDataType, kind of type default, sample values, literal)"""
     def user(name, icn):
@@ -61,7 +64,7 @@ class Case:
         self.ops = []
         for _ in range(rng.randrange(3, 10 if not thorough else 16)):
             o, a = rng.randrange(self.nobj), rng.randrange(na)
-            k = rng.choice(['read', 'read', 'write', 'del', 'mutate', 'mutate'])
+            k = rng.choice(['read', 'read', 'write', 'del', 'mutate', 'mutate', 'badwrite'])
             self.ops.append([k, o, a, rng.randrange(0, 3)])
 
     def to_json(self):
@@ -182,6 +185,15 @@ def run_case(cj, model, out, stats):
             setattr(objs[o], f.name, v)
             spec[(o, a)] = ('val', v)
             code = [2, o, a, NONEZ if v is None else intern.id(v)]
+        elif k == 'badwrite':
+            # a value no declared type accepts: must be refused and change nothing (for the model: a read)
+            try:
+                setattr(objs[o], f.name, BAD_VALUE) if x != 1 else objs[o].eSet(f, BAD_VALUE)
+                out.fail(dict(sig_base(a), clause='nonconforming-accepted'), f'obj{o}.{f.name} = frozenset accepted', cj)
+                return
+            except E.BadValueError:
+                pass
+            code = [1, o, a, 0]
         elif k == 'del':
             delattr(objs[o], f.name)
             d = info[a]['default']
@@ -220,6 +232,54 @@ def run_case(cj, model, out, stats):
                     out.fail(dict(sig_base(ai), clause=clause),
                              f'after {op}: obj{oi}.{ff.name} reads {val!r}, expected {sv}', cj)
                     return
+    # --- the same history on fresh instances WITHOUT observing anything in between: what an attribute reads
+    #     at the end may not depend on whether (or when) it was looked at before ---
+    lazy = [A() for _ in range(cj['nobj'])]
+    lazy_ok = True
+    cnt2 = [100]
+    for op in cj['ops']:
+        k, o, a, x = op
+        f = feats[a]
+        try:
+            if k == 'read':
+                getattr(lazy[o], f.name) if x != 1 else lazy[o].eGet(f)
+            elif k == 'write':
+                ws = info[a]['writes']
+                setattr(lazy[o], f.name, None if (x == 0 or not ws) else ws[(x - 1) % len(ws)])
+            elif k == 'badwrite':
+                try:
+                    setattr(lazy[o], f.name, BAD_VALUE) if x != 1 else lazy[o].eSet(f, BAD_VALUE)
+                except E.BadValueError:
+                    pass
+            elif k == 'del':
+                delattr(lazy[o], f.name)
+            elif k == 'mutate':
+                cur = getattr(lazy[o], f.name)
+                cnt2[0] += 1
+                if isinstance(cur, dict):
+                    cur[str(cnt2[0])] = cnt2[0]
+                elif isinstance(cur, list):
+                    cur.append(cnt2[0])
+        except Exception as e:  # noqa
+            out.fail(dict(sig_base(a), clause='unobserved-run-raised'), f'{op} raised {type(e).__name__} in the unobserved run only', cj)
+            lazy_ok = False
+            break
+    if lazy_ok:
+        for oi, ob in enumerate(lazy):
+            for ai, ff in enumerate(feats):
+                val = getattr(ob, ff.name)
+                ref = getattr(objs[oi], ff.name)
+                nv = ('container', list(val.values()) if isinstance(val, dict) else list(val)) if isinstance(val, (dict, list)) else ('val', val)
+                nr = ('container', list(ref.values()) if isinstance(ref, dict) else list(ref)) if isinstance(ref, (dict, list)) else ('val', ref)
+                if nv != nr or bool(ob.eIsSet(ff)) != bool(objs[oi].eIsSet(ff)):
+                    out.fail(dict(sig_base(ai), clause='depends-on-being-observed'),
+                             f'obj{oi}.{ff.name} reads {val!r} (isset {ob.eIsSet(ff)}) when nothing was read in between, '
+                             f'{ref!r} (isset {objs[oi].eIsSet(ff)}) when every attribute was read after every call', cj)
+                    break
+            else:
+                continue
+            break
+    stats['unobserved_runs'] = stats.get('unobserved_runs', 0) + 1
     for c in applied:
         toks += c
     mo = model.ask('defaults', toks)
